@@ -57,7 +57,7 @@ func (c12) Runs(t Tier) int {
 }
 func (c12) RecordWidths() map[string]int { return nil }
 func (c12) RequiredProbes() []string {
-	return []string{"missing-interior-file-block", "missing-last-leaf", "missing-first-leaf", "missing-last-link-shard", "missing-nested-shard", "lookup-blocked", "lookup-not-blocked-under-fault", "kth-load-transient", "subset-fault", "hamt-depth>=3", "dedup-file-block-faulted", "missing-empty-block", "repeated-lookups-same-node", "file-reread-after-recovery", "iterate-again-after-recovery", "well-known-error-value", "file-without-blocksizes", "seek-then-read-under-fault", "store-goes-away-at-load-k", "seek-end-under-fault", "trusted-storage", "preload-under-fault", "linksystem-with-node-reifier"}
+	return []string{"missing-interior-file-block", "missing-last-leaf", "missing-first-leaf", "missing-last-link-shard", "missing-nested-shard", "lookup-blocked", "lookup-not-blocked-under-fault", "kth-load-transient", "subset-fault", "hamt-depth>=3", "dedup-file-block-faulted", "missing-empty-block", "repeated-lookups-same-node", "file-reread-after-recovery", "iterate-again-after-recovery", "well-known-error-value", "file-without-blocksizes", "seek-then-read-under-fault", "store-goes-away-at-load-k", "seek-end-under-fault", "same-reader-used-after-error", "trusted-storage", "preload-under-fault", "linksystem-with-node-reifier"}
 }
 
 type c12Scenario struct {
@@ -77,7 +77,7 @@ type faultPlan struct {
 	targets []cid.Cid // persistent: every request for these fails
 	kth     int       // >=0: the kth read request fails once (transient)
 	after   int
-	flavour int // 0: opaque injected error; 1..3: well-known error values, see flavourErr
+	flavour int  // 0: opaque injected error; 1..3: well-known error values, see flavourErr
 	onward  bool // with kth >= 0: every request from the kth on fails (the store went away / the context was cancelled)
 }
 
@@ -393,6 +393,7 @@ func (c12) runFile(ts *tape.Set, tier Tier) *Result {
 	var lastNode datamodel.Node
 	recoveryFailure := ""
 	lengthFailure := ""
+	retryFailure := ""
 	probeEnd := !useAsBytes && bufSeed%2 == 0
 	if probeEnd {
 		res.probe("seek-end-under-fault")
@@ -400,6 +401,7 @@ func (c12) runFile(ts *tape.Set, tier Tier) *Result {
 	exec := func(p *faultPlan) (data []byte, rerr error, hit []cid.Cid, panicked bool, site, pmsg string, log []store.Event) {
 		lastNode = nil
 		lengthFailure = ""
+		retryFailure = ""
 		st.ResetLog()
 		st.ReadPolicy = nil
 		st.Frag = fragFn(fragSeed, fragMode)
@@ -448,6 +450,38 @@ func (c12) runFile(ts *tape.Set, tier Tier) *Result {
 				}
 			}
 			data, rerr, _ = readSeq(rs, func() int { return 1 + int(br.Next()%300) }, 4*len(content)+64)
+			if p != nil && rerr != nil && rerr != io.EOF && rerr != errNoProgress && rerr != errTooManyCalls && len(data) <= len(content) && bytes.Equal(data, content[:len(data)]) {
+				// ---- the caller keeps using the SAME reader after the error.
+				// While the block is still missing a further Read must fail again
+				// (never end-of-file, never other bytes); once the store has
+				// recovered, reading on must deliver exactly the rest of the
+				// file, or fail - never wrong bytes, never an early end.
+				pos := len(data)
+				persistent := p.kth < 0 || p.onward
+				buf := make([]byte, 1+int(br.Next()%200))
+				n, e := rs.Read(buf)
+				switch {
+				case n < 0 || pos+n > len(content) || !bytes.Equal(buf[:n], content[pos:pos+n]):
+					retryFailure = fmt.Sprintf("a second Read on the same reader after the load error returned %d bytes that are not the content at offset %d", n, pos)
+				case e == io.EOF && pos+n < len(content):
+					retryFailure = fmt.Sprintf("a second Read on the same reader after the load error returned end-of-file at offset %d of %d", pos+n, len(content))
+				case persistent && e == nil && n > 0:
+					// cannot happen while the block holding this offset is missing
+					retryFailure = fmt.Sprintf("a second Read on the same reader returned %d bytes although the block at offset %d is still unavailable", n, pos)
+				}
+				pos += n
+				if retryFailure == "" {
+					st.ReadPolicy = nil
+					rest, e2, _ := readSeq(rs, func() int { return 1 + int(br.Next()%300) }, 4*len(content)+64)
+					switch {
+					case pos+len(rest) > len(content) || !bytes.Equal(rest, content[pos:pos+len(rest)]):
+						retryFailure = fmt.Sprintf("after the store recovered, reading on with the same reader returned %d bytes that are not the content from offset %d", len(rest), pos)
+					case e2 == io.EOF && pos+len(rest) != len(content):
+						retryFailure = fmt.Sprintf("after the store recovered, reading on with the same reader ended at offset %d of %d", pos+len(rest), len(content))
+					}
+				}
+				res.probe("same-reader-used-after-error")
+			}
 		})
 		if hits != nil {
 			hit = hits()
@@ -576,6 +610,10 @@ func (c12) runFile(ts *tape.Set, tier Tier) *Result {
 		}
 		if lengthFailure != "" {
 			fail("c12/file/wrong-length-under-fault", "%s", lengthFailure)
+			break
+		}
+		if retryFailure != "" {
+			fail("c12/file/same-reader-after-error", "%s", retryFailure)
 			break
 		}
 		if len(hit) == 0 {
